@@ -5,6 +5,7 @@ capabilities using the full 657-color table from r2rtf.
 """
 
 from collections.abc import Mapping, Sequence
+from contextvars import ContextVar
 from typing import Any
 
 from rtflite.dictionary.color_table import (
@@ -12,6 +13,13 @@ from rtflite.dictionary.color_table import (
     name_to_rgb,
     name_to_rtf,
     name_to_type,
+)
+
+
+# Colors of the document currently being encoded. Context-local so that
+# concurrent encodes (threads, async tasks) do not see each other's palette.
+_document_colors: ContextVar[Sequence[str] | None] = ContextVar(
+    "rtflite_document_colors", default=None
 )
 
 
@@ -33,6 +41,14 @@ class ColorService:
         self._current_document_colors = (
             None  # Context for current document being encoded
         )
+
+    @property
+    def _current_document_colors(self) -> Sequence[str] | None:
+        return _document_colors.get()
+
+    @_current_document_colors.setter
+    def _current_document_colors(self, value: Sequence[str] | None) -> None:
+        _document_colors.set(value)
 
     def validate_color(self, color: str) -> bool:
         """Validate if a color name exists in the color table.
